@@ -3,6 +3,7 @@ package gen
 import (
 	"fmt"
 	"math/big"
+	"sync"
 
 	"pgregory.net/rapid"
 
@@ -31,7 +32,7 @@ type PointCase struct {
 
 // Point draws a curve point (identity included) from the mixture.
 func Point(t *rapid.T, label string) PointCase {
-	strat := Sampled([]string{"kG", "kG", "lift", "lift", "small-x", "x>=n", "small-y", "identity", "lambda"}).Draw(t, label+"_pstrat")
+	strat := Sampled([]string{"kG", "kG", "lift", "lift", "lift-y", "small-x", "x>=n", "small-y", "identity", "lambda"}).Draw(t, label+"_pstrat")
 	odd := rapid.Bool().Draw(t, label+"_odd")
 	switch strat {
 	case "kG":
@@ -50,6 +51,25 @@ func Point(t *rapid.T, label string) PointCase {
 		x := nextOnCurveX(x0)
 		p, _ := ref.LiftX(x, odd)
 		return PointCase{p, "lift"}
+	case "lift-y": // the ordinate is the drawn (boundary-biased / limb-pattern) value: P + O has Z = y in the complete formulas
+		if rapid.IntRange(0, 2).Draw(t, label+"_yrel") == 0 {
+			// keep the limb relation intact: redraw instead of stepping to the next admissible ordinate
+			for i := 0; i < 12; i++ {
+				y := ref.Mod(LimbRelation(t, ref.P, fmt.Sprintf("%s_yr%d", label, i)), ref.P)
+				if roots := ref.CbrtP(ref.SubM(ref.MulM(y, y, ref.P), bi(7), ref.P)); len(roots) > 0 {
+					return PointCase{ref.Pt{X: roots[rapid.IntRange(0, len(roots)-1).Draw(t, label+"_root")], Y: y}, "lift-y"}
+				}
+			}
+		}
+		y := Raw256(t, ref.P, label+"_y")
+		y.Mod(y, ref.P)
+		for i := 0; i < 1000; i++ {
+			if roots := ref.CbrtP(ref.SubM(ref.MulM(y, y, ref.P), bi(7), ref.P)); len(roots) > 0 {
+				return PointCase{ref.Pt{X: roots[rapid.IntRange(0, len(roots)-1).Draw(t, label+"_root")], Y: y}, "lift-y"}
+			}
+			y = ref.AddM(y, one, ref.P)
+		}
+		return PointCase{ref.G(), "kG"}
 	case "small-x":
 		x := nextOnCurveX(Small(t, label+"_x"))
 		p, _ := ref.LiftX(x, odd)
@@ -229,11 +249,66 @@ func PointPair(t *rapid.T, label string) (p, q ref.Pt, rel string) {
 
 // Scale draws a non-zero projective scale factor.
 func Scale(t *rapid.T, label string) *big.Int {
-	l := Int256(t, ref.P, label)
+	// The formulas multiply Z^2 (doubling), Z1*Z2 and X1*Z2+X2*Z1 (addition) by the curve constant 3b: besides
+	// boundary-biased factors, draw factors whose square -- or whose product with the factor drawn just before
+	// in the same case -- is a hostile value (next to k*2^256/c, next to a limb boundary, ...).
+	var l *big.Int
+	prev := lastScale(t)
+	switch Sampled([]string{"plain", "plain", "plain", "sqrt-of-hostile", "sqrt-of-hostile", "product-with-previous"}).Draw(t, label+"_skind") {
+	case "sqrt-of-hostile":
+		for i := 0; i < 16 && l == nil; i++ {
+			target := hostile(t, fmt.Sprintf("%s_t%d", label, i))
+			if r, ok := ref.SqrtP(target); ok && r.Sign() != 0 {
+				l = r
+			}
+		}
+	case "product-with-previous":
+		if prev != nil {
+			l = ref.MulM(hostile(t, label+"_t"), ref.Inv0(prev, ref.P), ref.P)
+		}
+	}
+	if l == nil {
+		l = Int256(t, ref.P, label)
+	}
 	if l.Sign() == 0 {
 		l.SetInt64(1)
 	}
+	rememberScale(t, l)
 	return l
+}
+
+func hostile(t *rapid.T, label string) *big.Int {
+	switch Sampled([]string{"frac", "frac", "limb", "modlimb", "biased"}).Draw(t, label+"_h") {
+	case "frac":
+		return FracEdge(t, ref.P, label)
+	case "limb":
+		return LimbEdge(t, ref.P, label)
+	case "modlimb":
+		return ref.Mod(ModLimbMix(t, ref.P, label), ref.P)
+	}
+	return Int256(t, ref.P, label)
+}
+
+// The scale drawn last in the current case (keyed by the case's *rapid.T, so
+// a replayed case sees exactly what the original saw).
+var (
+	scaleMu   sync.Mutex
+	scaleMemo = map[*rapid.T]*big.Int{}
+)
+
+func lastScale(t *rapid.T) *big.Int {
+	scaleMu.Lock()
+	defer scaleMu.Unlock()
+	return scaleMemo[t]
+}
+
+func rememberScale(t *rapid.T, l *big.Int) {
+	scaleMu.Lock()
+	defer scaleMu.Unlock()
+	if len(scaleMemo) > 4096 {
+		scaleMemo = map[*rapid.T]*big.Int{}
+	}
+	scaleMemo[t] = l
 }
 
 // SmallXPoint draws a curve point with x < 2^16+ (so x+p still fits 32 bytes).
